@@ -33,13 +33,20 @@ def decode(text, diags):
 
 
 def one_history(workdir, rng, findings, stats):
-    lang = rng.choice(["plaintext", "markdown", "plaintext", "mail"])
+    lang = rng.choice(["plaintext", "markdown", "plaintext", "mail", "rust", "python"])
     parts = [rng.choice(CLAUSES) for _ in range(rng.randint(2, 4))]
     if rng.random() < 0.3:
         parts.append(parts[0])  # an exact twin of the first clause
-    sep = rng.choice([" ", "\n\n", "\n"])
-    text = sep.join(parts) + sep + rng.choice(CLEAN) + "\n"
-    ext = {"plaintext": "txt", "markdown": "md", "mail": "eml"}[lang]
+    lead = {"rust": "// ", "python": "# "}.get(lang, "")
+    code = {"rust": "fn main() {}\n", "python": "x = 1\n"}.get(lang, "")
+    if lead:
+        # every clause is a comment line of its own, code in between now and then
+        sep = "\n"
+        text = "".join(lead + p_ + "\n" + (code if rng.random() < 0.3 else "") for p_ in parts) + lead + rng.choice(CLEAN) + "\n" + code
+    else:
+        sep = rng.choice([" ", "\n\n", "\n"])
+        text = sep.join(parts) + sep + rng.choice(CLEAN) + "\n"
+    ext = {"plaintext": "txt", "markdown": "md", "mail": "eml", "rust": "rs", "python": "py"}[lang]
     uri = uri_for(os.path.join(workdir, "doc." + ext))
     s = Server(workdir)
     trace = [{"op": "didOpen", "language_id": lang, "text": text}]
@@ -100,8 +107,14 @@ def one_history(workdir, rng, findings, stats):
         # edits far away from every lint: append / prepend a clean paragraph
         for how in rng.sample(["append", "prepend"], 2):
             extra = rng.choice(EXTRA)
-            if how == "append":
+            if how == "append" and lead:
+                # in a source file: new code with a new identifier after the last comment (the comments are untouched)
+                ident = "quuxify_%d" % rng.randint(0, 99)
+                new_text, shift = cur_text + ({"rust": "fn %s() {}\n", "python": "def %s(): pass\n"}[lang] % ident), 0
+            elif how == "append":
                 new_text, shift = cur_text + "\n" + extra + "\n", 0
+            elif lead:
+                new_text, shift = lead + extra + "\n\n" + cur_text, len(lead) + len(extra) + 2
             else:
                 new_text, shift = extra + "\n\n" + cur_text, len(extra) + 2
             trace.append({"op": "didChange", "edit": how, "text": new_text})
